@@ -513,3 +513,79 @@ def compare_random(rng, count, big_every=50):
         a, b = _alset_str(A), _alset_str(B)
         m = realops.matcher_table(flag == 1, a, b)
         yield f"COMPARE flag={flag} A={a} B={b} M={m}"
+
+
+# ------------------------------------------------------------------ READCMAP / TRIM / XROW
+def _cmap_mols(rng, small=False):
+    n = rng.randrange(0, 4 if small else 7)
+    ids = rng.sample(range(1, 40), n)
+    mols = []
+    for i in ids:
+        k = rng.choice([0, 1, 2, 3]) if small or rng.random() < 0.3 else rng.randrange(1, 40)
+        pos = sorted(rng.randrange(0, 3000000) for _ in range(k))
+        if rng.random() < 0.2 and pos:
+            pos.append(pos[-1])  # coincident labels
+        length = (pos[-1] if pos else 0) + rng.randrange(0, 99999)
+        mols.append((i, length, pos))
+    return mols
+
+
+def readcmap_random(rng, count):
+    """yields groups of lines: the same file with rows in different orders (+ optional id filter)"""
+    for _ in range(count):
+        unit = rng.choice([1, 10, 10])
+        mols = _cmap_mols(rng, rng.random() < 0.3)
+        rows = []
+        for (mid, length, pos) in mols:
+            for p in pos:
+                rows.append((mid, 1, p))
+            rows.append((mid, 0, length))
+        ids = []
+        if mols and rng.random() < 0.4:
+            ids = rng.sample([m[0] for m in mols], rng.randrange(1, len(mols) + 1))
+            if rng.random() < 0.3:
+                ids.append(999)
+        extra = rng.randrange(2)
+        group = []
+        for k in range(2):
+            r = list(rows)
+            if k:
+                rng.shuffle(r)
+            group.append(f"READCMAP unit={unit} extra={extra} ids={','.join(map(str, ids))} ROWS=" +
+                         ",".join(f"{a}:{b}:{c}" for a, b, c in r))
+        yield group
+    yield ["READCMAP unit=1 extra=0 ids= ROWS=1:1:100,1:1:200", "READCMAP unit=1 extra=0 ids= ROWS=1:1:200,1:1:100"]  # no end marker
+    yield ["READCMAP unit=1 extra=0 ids=5 ROWS=1:1:100,1:0:200", "READCMAP unit=1 extra=0 ids=5 ROWS=1:0:200,1:1:100"]
+
+
+def trim_random(rng, count):
+    for _ in range(count):
+        n = rng.randrange(0, 30)
+        pos = sorted(rng.randrange(0, 500000) for _ in range(n))
+        yield f"TRIM M={mapstr(rng.randrange(1, 99), (pos[-1] if pos else 0) + rng.randrange(1, 9999), rng.choice([0, 0, 3]), pos)}"
+
+
+def labels_random(rng, count):
+    for _ in range(count):
+        n = rng.randrange(0, 12)
+        pos = sorted(rng.randrange(0, 5000) for _ in range(n))
+        yield f"LABELS rev={rng.randrange(2)} M={mapstr(1, (pos[-1] if pos else 0) + rng.randrange(1, 99), rng.choice([0, 0, 5]), pos)}"
+
+
+def xrow_random(rng, count):
+    for _ in range(count):
+        k = rng.randrange(1, 30)
+        rev = rng.randrange(2)
+        r, q = rng.randrange(1, 300), rng.randrange(1, 50) + (100 if rev else 0)
+        ps = []
+        for _ in range(k):
+            ps.append((r, q))
+            r += rng.randrange(1, 4)
+            q += -rng.randrange(1, 3) if rev else rng.randrange(1, 3)
+        hit = rng.choice(["3M", "1M1D2M", "12M3I1D40M", "1M"])
+        qs, qe = rng.randrange(0, 10 ** 6), rng.randrange(0, 10 ** 6)
+        c100 = rng.choice([0, 100000, 123456, rng.randrange(-50000, 5000000), rng.randrange(0, 200) * 25])
+        yield (f"XROW eid={rng.randrange(1, 4)} q={rng.randrange(1, 10 ** 5)} r={rng.randrange(1, 25)} qs={qs} qe={qe} "
+               f"rs={rng.randrange(0, 10 ** 8)} re={rng.randrange(0, 10 ** 8)} rev={rev} c100={c100} hit={hit} "
+               f"ql={rng.randrange(1, 10 ** 6)} rl={rng.randrange(1, 10 ** 8)} rest={rng.randrange(2)} "
+               f"P={','.join(f'{a}:{b}' for a, b in ps)}")
